@@ -28,6 +28,8 @@ import (
 	"strings"
 	"testing"
 
+	"github.com/ontio/ontology-crypto/ec"
+	"github.com/ontio/ontology-crypto/keypair"
 	"github.com/ontio/ontology/common"
 	"github.com/ontio/ontology/common/config"
 	"github.com/ontio/ontology/verifshim/vh"
@@ -261,9 +263,6 @@ func (c *c20run) check(cs c20case, input []byte, base *c20block) {
 		tail = "+trailing"
 	}
 	c.r.Class("accepted:" + cs.Family + tail)
-	if cs.Family == "count-overflow" {
-		c.r.Set("accepted_count_overflow:"+cs.Desc, len(blk.Header.Bookkeepers)*1000+len(blk.Header.SigData))
-	}
 
 	for ei, b := range []*Block{blk, blkA} {
 		entry := []string{"Deserialization", "BlockFromRawBytes"}[ei]
@@ -277,10 +276,7 @@ func (c *c20run) check(cs c20case, input []byte, base *c20block) {
 			for i < len(arr) && i < len(consumed) && arr[i] == consumed[i] {
 				i++
 			}
-			key := cs.ReKey
-			if key == "" {
-				key = "reencode:" + cs.Family
-			}
+			key := c20reencodeKey(consumed, b.Header, cs.Family)
 			c.viol(key, cs, "%s: ToArray() (%d bytes) != consumed bytes (%d); first difference at offset %d: input ..%s re-encoded ..%s", entry, len(arr), len(consumed), i,
 				vh.Hex(consumed[c19max(0, i-2):]), vh.Hex(arr[c19max(0, i-2):]))
 			break
@@ -368,12 +364,90 @@ func (c *c20run) checkHeader(cs c20case, input []byte) {
 	c.r.Class("accepted:" + cs.Family)
 	arr := hd.ToArray()
 	if len(arr) > len(input) || !bytes.Equal(arr, input[:len(arr)]) {
-		key := cs.ReKey
-		if key == "" {
-			key = "reencode:" + cs.Family
-		}
+		key := c20reencodeKey(input, hd, cs.Family)
 		c.viol(key, cs, "HeaderFromRawBytes(..).ToArray() %s is not a prefix of the input %s", vh.Hex(arr), vh.Hex(input))
 	}
+}
+
+
+// c20varint: independent reader of one var-int (value, width, ok)
+func c20varint(b []byte) (uint64, int, bool) {
+	if len(b) == 0 {
+		return 0, 0, false
+	}
+	w := map[byte]int{0xfd: 2, 0xfe: 4, 0xff: 8}[b[0]]
+	if w == 0 {
+		return uint64(b[0]), 1, true
+	}
+	if len(b) < 1+w {
+		return 0, 0, false
+	}
+	var v uint64
+	for i := w; i >= 1; i-- {
+		v = v<<8 | uint64(b[i])
+	}
+	return v, 1 + w, true
+}
+
+// c20reencodeKey names the cause class of a re-encoding difference by walking
+// the signer part of the consumed header with an own reader: an overflowing
+// count, or the first bookkeeper key whose wire form is not the canonical one
+// (class by the shape of the wire form), else the family.
+func c20reencodeKey(consumed []byte, hd *Header, family string) string {
+	u := 4 + 32*3 + 4 + 4 + 8 + c19minWidth(uint64(len(hd.ConsensusPayload))) + len(hd.ConsensusPayload) + 20
+	if u > len(consumed) {
+		return "reencode:" + family
+	}
+	p := consumed[u:]
+	n, w, ok := c20varint(p)
+	if !ok {
+		return "reencode:" + family
+	}
+	if n >= 1<<63 {
+		return "reencode:bookkeeper-count>=2^63"
+	}
+	p = p[w:]
+	for i := uint64(0); i < n && int(i) < len(hd.Bookkeepers); i++ {
+		l, w, ok := c20varint(p)
+		if !ok || uint64(len(p)-w) < l {
+			return "reencode:" + family
+		}
+		k := p[w : w+int(l)]
+		p = p[w+int(l):]
+		canon := keypair.SerializePublicKey(hd.Bookkeepers[i])
+		if bytes.Equal(k, canon) {
+			continue
+		}
+		body := k
+		labelled := false
+		if len(k) > 2 && (k[0] == 0x12 || k[0] == 0x13) {
+			body, labelled = k[2:], true
+		}
+		switch {
+		case len(body) > 0 && body[0] == 4:
+			if pk, isEC := hd.Bookkeepers[i].(*ec.PublicKey); isEC && !pk.Curve.IsOnCurve(pk.X, pk.Y) {
+				return "reencode:bookkeeper-key:off-curve-point"
+			}
+			cl := (hd.Bookkeepers[i].(*ec.PublicKey).Params().BitSize + 7) / 8
+			if len(body) > 1+2*cl {
+				return "reencode:bookkeeper-key:trailing-bytes"
+			}
+			if labelled && k[0] == 0x12 && k[1] == 2 {
+				return "reencode:bookkeeper-key:p256-with-0x12-label"
+			}
+			return "reencode:bookkeeper-key:uncompressed"
+		case labelled && k[0] == 0x12 && k[1] == 2 && len(k) == 35:
+			return "reencode:bookkeeper-key:p256-with-0x12-label"
+		case len(k) > len(canon):
+			return "reencode:bookkeeper-key:trailing-bytes"
+		}
+		return "reencode:bookkeeper-key:other"
+	}
+	m, _, ok := c20varint(p)
+	if ok && m >= 1<<63 {
+		return "reencode:sigdata-count>=2^63"
+	}
+	return "reencode:" + family
 }
 
 // ---------------------------------------------------------------- key alphabets
@@ -457,7 +531,7 @@ func TestVerif_C20(t *testing.T) {
 	r := vh.Start(t, "C20", "blockcodec")
 	defer r.Finish()
 	r.Rule("blocks built by an independent encoder (own header layout, own merkle root) from the 13 C19 base transactions are decoded by BlockFromRawBytes and Block.Deserialization; accepted => ToArray()==consumed, decoded tx hashes distinct and their reference root == header root, under an unchanged header root the tx-hash list is the original one, Hash()==sha256d(unsigned header) and hash<->unsigned-header bijection over the run, no panic. Inputs: blocks of 0..5 txs (all ordered selections up to 2, thorough 3) x signer lists of 0/1/4 keys; all permutations of the tx list (<=4, thorough <=5); every duplicate insertion incl. the odd-leaf tricks [a,b,c]->[a,b,c,c], [a..e]->[a..e,e,e,e], [a..f]->[a..f,e,f]; every drop/replace/re-signed copy; tx count +-1; an interior merkle node offered as a 64-byte transaction; every single-byte mutation of 3 whole blocks; every var-int non-minimal; signer/signature counts >= 2^63; 19 bookkeeper key encodings; truncations; trailing bytes. distinct = (accepted|rejected, family, reason) classes")
-	r.Bound(fmt.Sprintf("tx lists <= 5 (permutations <= %d), 3 fully mutated blocks, 19 key forms", r.Pick(4, 5)))
+	r.Bound(fmt.Sprintf("tx lists <= 6 (permutations <= %d), %d fully mutated blocks (%d byte mutations per offset), 19 key forms, list mutations from %d starting offsets into the base pool", r.Pick(4, 5), r.Pick(3, 5), r.Pick(5, 12), r.Pick(3, 13)))
 	c := &c20run{r: r, byHash: map[[32]byte]string{}, byContent: map[string][32]byte{}, descOf: map[string]string{}}
 
 	var rc c20case
@@ -521,7 +595,11 @@ func TestVerif_C20(t *testing.T) {
 	// tx-list mutations, header (root) left as is
 	maxPerm := r.Pick(4, 5)
 	for n := 1; n <= 6; n++ {
-		for _, start := range []int{0, 5, 9} {
+		starts := []int{0, 5, 9}
+		if r.Thorough() {
+			starts = []int{0, 1, 2, 3, 4, 5, 6, 7, 8, 9, 10, 11, 12}
+		}
+		for _, start := range starts {
 			if r.Expired() {
 				return
 			}
@@ -660,6 +738,9 @@ func TestVerif_C20(t *testing.T) {
 		c20new(sel(2, 6), [][]byte{forms[0].bytes, forms[12].bytes, forms[14].bytes}),
 		c20new(sel(10, 3, 11), [][]byte{forms[8].bytes}),
 	}
+	if r.Thorough() {
+		full = append(full, c20new(sel(6, 4, 12, 8), [][]byte{forms[16].bytes, forms[0].bytes}), c20new(sel(5, 7, 9, 1, 0), nil))
+	}
 	for bi, base := range full {
 		bb, fields, _ := base.encode()
 		c.all = true
@@ -732,7 +813,11 @@ func TestVerif_C20(t *testing.T) {
 			},
 			"extra-sigdata":    func(v *c20block) { v.SigData = append(v.SigData, []byte{1, 2, 3}) },
 			"empty-sigdata":    func(v *c20block) { v.SigData = append(v.SigData, nil) },
-			"signer-twice":     func(v *c20block) { v.Keys = append(v.Keys, v.Keys[0]) },
+			"signer-twice":     func(v *c20block) {
+				if len(v.Keys) > 0 {
+					v.Keys = append(v.Keys, v.Keys[0])
+				}
+			},
 		}
 		var en []string
 		for k := range edits {
